@@ -9,7 +9,7 @@ _NQ = max(1, len(_sel) // 300); _NT = 1
 HARNESSES = []
 for _i, _h in enumerate(_sel):
     HARNESSES.append(Harness('rw', _h['fn'], unwind=17, tiers=('quick', 'thorough'), mem_gb=4, timeout=600, validate_runs=200,
-                             rotate=((_i * 37) % _NQ, _NQ), rotate_thorough=((_i * 7883) % _NT, _NT),
+                             rotate=((_i * 7877) % _NQ, _NQ), rotate_thorough=((_i * 7883) % _NT, _NT),
                              bounds='instruction %s, %s-bit mode: same symbolic operand space as the C01 harness of the same name (pairwise distinct register ids among same-class operands)' % (_h['inst'], _h['mode'])))
 EXPLANATION = 'bounded symbolic execution of the real InstAPI::query_rw_info against the access marks and io field of the database record'
 OUTSIDE = ['the hardware-semantics half of the property (executing instructions on the host is not solver-based)', 'same-register idioms', 'implicit operands (records with <reg> operands are not generated)',
